@@ -379,7 +379,7 @@ class SphericalDroplet(DropletBase):
         if grid is None:
             distance = float(np.linalg.norm(self.position - other.position))
         else:
-            distance = grid.distance(self.position, other.position, coords="cartesian")
+            distance = spherical.grid_distance(grid, self.position, other.position)
         return distance < self.radius + other.radius
 
     @classmethod
